@@ -199,6 +199,9 @@ Definition range_in_doc (lens : list N) (r : range) : bool :=
 
 Definition contains (outer inner : range) : bool := pos_leb (fst outer) (fst inner) && pos_leb (snd inner) (snd outer).
 
+(** [LuaDocument::get_document_lsp_range] (vfs/document.rs): (0,0) .. (line_count, 0) *)
+Definition document_lsp_range (t : text) : range := ((0, 0), (line_count (parse t), 0)).
+
 (** document symbols *)
 Inductive sym := Sym (r sel : range) (children : list sym).
 
